@@ -16,7 +16,7 @@ pub fn def() -> CheckDef {
         bounds_quick: "forget / forget_monogamous on every lax term with <=3 nodes and <=2 hyperedges of arity <=2 (0->n, n->0 and 0->0 included), <=1 pending pair, interfaces <=1; node and edge labels symbolic, so every hyperedge is variable-labelled or not and its incident labels equal or not by the solver's choice; Var builder: eight scripted expressions (sharing, multi-result operations, unused inputs, leaked handle) evaluated on symbolic 64-bit inputs",
         bounds_thorough: "forget on <=4 nodes, <=2 hyperedges of arity <=3",
         jobs,
-        budget_s: (150, 2400),
+        budget_s: (150, 1500),
     }
 }
 
@@ -156,7 +156,7 @@ fn oracle_build(inp: &PV, out: &PV) -> T {
 }
 
 pub fn jobs(tier: Tier, _seed: u64) -> Vec<Job> {
-    let per_job = Duration::from_secs(if tier == Tier::Quick { 90 } else { 1200 });
+    let per_job = Duration::from_secs(if tier == Tier::Quick { 90 } else { 600 });
     let cfg = base_cfg(tier);
     let mut out = vec![];
     // Var builder scripts
